@@ -41,8 +41,19 @@ def run(chk):
     # crash points: an earlier construction with the same degree function was aborted by its k-th call raising
     for c0 in [c for c in cs if c.get("src") == "random"][:200 if not thorough else 4000]:
         cs.append(dict(c0, pre_fault=rng.choice([1, 2, 3, 4, 6]), src="after-abort"))
-    for c0 in [c for c in cs if c.get("src") == "random"][200:400 if not thorough else 4000]:
-        cs.append(dict(c0, pre_abort=rng.random(), src="after-abandoned"))
+    # fresh degree ranges for every abandoned construction (a memo keyed by degree is cold for the degrees it has not met yet)
+    ab = []
+    for i in range(60 if not thorough else 300):
+        T = 2 + i % 2
+        lo = 8 + (i * 3) % 47
+        hi = lo + 2
+        f = [1 + (k % 3) for k in range(hi + 2)]
+        delta = i % 4 == 3
+        ab.append({"kind": "delta" if delta else "split", "a": [1] * T, "b": T, "f": f, "F": sum(f), "lo": lo, "hi": hi, "target": lo + 1,
+                   "delta": delta, "src": "after-abandoned", "pre_abort": rng.random() * 0.55})
+    cs = ab + cs
+    # (these come FIRST: whatever the implementation memoises per process is still cold when the abandoned constructions run)
+    cs = [dict(c0, pre_abort=rng.random(), src="after-abandoned") for c0 in [c for c in cs if c.get("src") == "random"][200:400 if not thorough else 4000]] + cs
     traces = [L.execute(c) for c in cs]
     multi = [t for t in traces if len(t.get("steps", [])) > 1]
     if not multi:
